@@ -68,6 +68,23 @@ fn oracle_forget(inp: &PV, out: &PV) -> T {
     tm::and(vec![one(false, out.at(0)), one(true, out.at(1))])
 }
 
+/// interpretation of the binary operators of the test signature. Every one is order-sensitive (the
+/// commutative ones get "+ second operand"), so that an operator wired to its operands in the wrong order
+/// computes a different function from the expression written.
+fn bin(k: u64, a: T, b: T) -> T {
+    match k {
+        L_ADD => tm::add(tm::add(a, b), b),
+        L_MUL => tm::add(tm::mul(a, b), b),
+        L_SUB => tm::sub(a, b),
+        L_XOR => tm::add(tm::bxor(a, b), b),
+        L_AND => tm::add(tm::band(a, b), b),
+        L_OR => tm::add(tm::bor(a, b), b),
+        L_SHL => tm::add(a, tm::add(b, b)),
+        L_SHR => tm::sub(a, tm::add(b, b)),
+        L_DIV => tm::sub(tm::add(a, a), b),
+        _ => panic!("ENGINE-ERROR: not a binary operator of the test signature"),
+    }
+}
 /// reference evaluation of a lax term in which variable hyperedges are read as copies
 fn eval_lax(r: &RawLax, inputs: &[T]) -> Option<Vec<T>> {
     let n = r.nodes.len();
@@ -87,18 +104,9 @@ fn eval_lax(r: &RawLax, inputs: &[T]) -> Option<Vec<T>> {
                     }
                     vec![xs[0]; tgt.len()]
                 }
-                L_ADD => vec![tm::add(xs[0], xs[1])],
-                L_MUL => vec![tm::mul(xs[0], xs[1])],
-                L_SUB => vec![tm::sub(xs[0], xs[1])],
-                L_XOR => vec![tm::bxor(xs[0], xs[1])],
-                L_AND => vec![tm::band(xs[0], xs[1])],
+                L_ADD | L_MUL | L_SUB | L_XOR | L_AND | L_OR | L_SHL | L_SHR | L_DIV => vec![bin(k, xs[0], xs[1])],
                 L_NEG => vec![tm::sub(zero, xs[0])],
                 L_NOT => vec![tm::bxor(xs[0], tm::c(u64::MAX, vw()))],
-                L_OR => vec![tm::bor(xs[0], xs[1])],
-                // order-sensitive stand-ins for the shift and division operators of the test signature
-                L_SHL => vec![tm::add(xs[0], tm::add(xs[1], xs[1]))],
-                L_SHR => vec![tm::sub(xs[0], tm::add(xs[1], xs[1]))],
-                L_DIV => vec![tm::sub(tm::add(xs[0], xs[0]), xs[1])],
                 // the ternary test operation: (a + 2b, b * c) (order-sensitive in every argument)
                 L_OP3 => vec![tm::add(xs[0], tm::add(xs[1], xs[1])), tm::mul(xs[1], *xs.get(2).unwrap_or(&xs[1]))],
                 _ => return None,
@@ -143,18 +151,16 @@ fn oracle_build(inp: &PV, out: &PV) -> T {
     }
     let zero = tm::c(0, vw());
     let (n_in, n_ops, want, types_in, types_out): (usize, usize, Vec<T>, Vec<T>, Vec<T>) = match script {
-        0 => (2, 2, vec![tm::mul(tm::add(x, y), x)], vec![tx, ty], vec![tx]),
-        1 => (2, 2, vec![tm::bxor(tm::sub(zero, x), y), x], vec![tx, ty], vec![tx, tx]),
+        0 => (2, 2, vec![bin(L_MUL, bin(L_ADD, x, y), x)], vec![tx, ty], vec![tx]),
+        1 => (2, 2, vec![bin(L_XOR, tm::sub(zero, x), y), x], vec![tx, ty], vec![tx, tx]),
         2 => (2, 1, vec![tm::add(x, tm::add(x, x)), tm::mul(x, y)], vec![tx, ty], vec![t1, t2]),
         3 => (1, 0, vec![x, x], vec![tx], vec![tx, tx]),
         4 => (0, 0, vec![], vec![], vec![]),
-        5 => (2, 3, vec![tm::bxor(tm::band(x, tm::sub(y, x)), tm::c(u64::MAX, vw()))], vec![tx, ty], vec![tx]),
+        5 => (2, 3, vec![tm::bxor(bin(L_AND, x, bin(L_SUB, y, x)), tm::c(u64::MAX, vw()))], vec![tx, ty], vec![tx]),
         6 => (2, 1, vec![tm::add(x, tm::add(x, x))], vec![tx, ty], vec![t1]),
         8 => {
-            let or = tm::bor(x, y);
-            let shr = tm::sub(y, tm::add(x, x));
-            let shl = tm::add(or, tm::add(shr, shr));
-            (2, 4, vec![tm::sub(tm::add(shl, shl), x)], vec![tx, ty], vec![tx])
+            let shl = bin(L_SHL, bin(L_OR, x, y), bin(L_SHR, y, x));
+            (2, 4, vec![bin(L_DIV, shl, x)], vec![tx, ty], vec![tx])
         }
         _ => return tm::FALSE,
     };
@@ -176,6 +182,18 @@ fn oracle_build(inp: &PV, out: &PV) -> T {
         // declared inputs and outputs are the interfaces, in order, with their declared labels
         all_eq(&lab_at(&f.s), &types_in),
         all_eq(&lab_at(&f.t), &types_out),
+        // every node incident to a variable's hyperedge carries that variable's label
+        tm::and(
+            f.edges
+                .iter()
+                .zip(f.adj.iter())
+                .filter(|(l, _)| tm::as_const(**l) == Some(L_VAR))
+                .map(|(_, (s, t))| {
+                    let ls = lab_at(&s.iter().chain(t.iter()).cloned().collect::<Vec<T>>());
+                    tm::and(ls.windows(2).map(|w| tm::eq(w[0], w[1])).collect())
+                })
+                .collect(),
+        ),
     ])
 }
 
